@@ -3,7 +3,7 @@
    TRCL cell.  For importers (C02, C03, C05): use [interface_law]. *)
 From Coq Require Import List ZArith Bool Reals Lra Lia.
 From T4V Require Import Base.Scalar C04.Vec C04.Model C04.Spec C04.ProofsFrame C04.ProofsConvert
-  C04.ProofsQuad C04.ProofsSurf C04.ProofsCompose C04.ProofsTorus C04.ProofsTree.
+  C04.ProofsQuad C04.ProofsSurf C04.ProofsCompose C04.ProofsMatrix C04.ProofsTorus C04.ProofsTree.
 Import ListNotations.
 Open Scope R_scope.
 
@@ -210,4 +210,67 @@ Proof.
   intros o b cellsem t t' st st' Hb Hs H0 Hw Hk Hc Hc' H p'.
   destruct (trcl_cell o b cellsem t t' st st' Hb Hs H0 Hw Hk H) as (Hr & _ & _).
   rewrite !region_t4_mcnp by assumption. apply Hr.
+Qed.
+
+(* ---------- the same law in the shape  sense (tr_surf t s) p = sense s (inv t p) ---------- *)
+(* boolean senses of a written collection, the inverse motion [to_aux] *)
+Definition sense_neg_b (coll : list (t4surf R * Z)) (p : R3) : bool :=
+  forallb (fun cs => Rltb (IZR (snd cs) * t4val (fst cs) p) 0) coll.
+Definition sense_pos_b (coll : list (t4surf R * Z)) (p : R3) : bool :=
+  existsb (fun cs => Rltb 0 (IZR (snd cs) * t4val (fst cs) p)) coll.
+
+Lemma sense_neg_b_spec coll p : sense_neg_b coll p = true <-> coll_neg coll p.
+Proof.
+  unfold sense_neg_b, coll_neg. rewrite forallb_forall, Forall_forall.
+  split; intros H x Hx; specialize (H x Hx); apply Rltb_true; exact H.
+Qed.
+Lemma sense_pos_b_spec coll p : sense_pos_b coll p = true <-> coll_pos coll p.
+Proof.
+  unfold sense_pos_b, coll_pos. rewrite existsb_exists, Exists_exists.
+  split; intros (x & Hx & H); exists x; (split; [exact Hx|]); apply Rltb_true; exact H.
+Qed.
+
+Lemma bool_iff_eq (a b : bool) : (a = true <-> b = true) -> a = b.
+Proof. destruct a, b; intros [H1 H2]; try reflexivity; [symmetry; apply H1; reflexivity | apply H2; reflexivity]. Qed.
+
+Lemma to_main_to_aux o b p : rows_orthonormal b -> to_main o b (to_aux o b p) = p.
+Proof.
+  intros Hb. pose proof (cols_orthonormal b Hb) as Hc.
+  destruct o as [o1 o2 o3], b as [[b1 b2 b3] [b4 b5 b6] [b7 b8 b9]], p as [x y z].
+  unfold rows_orthonormal, transpose, to_aux, to_main, vplus, vscale, vminus, dot in *; cbn [vx vy vz] in *.
+  destruct Hc as (C11 & C22 & C33 & C12 & C23 & C31).
+  f_equal.
+  - replace (o1 + ((b1 * (x - o1) + b2 * (y - o2) + b3 * (z - o3)) * b1 +
+                   ((b4 * (x - o1) + b5 * (y - o2) + b6 * (z - o3)) * b4 +
+                    (b7 * (x - o1) + b8 * (y - o2) + b9 * (z - o3)) * b7)))
+      with (o1 + (x - o1) * (b1 * b1 + b4 * b4 + b7 * b7) + (y - o2) * (b1 * b2 + b4 * b5 + b7 * b8)
+            + (z - o3) * (b3 * b1 + b6 * b4 + b9 * b7)) by ring.
+    rewrite C11, C12, C31. ring.
+  - replace (o2 + ((b1 * (x - o1) + b2 * (y - o2) + b3 * (z - o3)) * b2 +
+                   ((b4 * (x - o1) + b5 * (y - o2) + b6 * (z - o3)) * b5 +
+                    (b7 * (x - o1) + b8 * (y - o2) + b9 * (z - o3)) * b8)))
+      with (o2 + (x - o1) * (b1 * b2 + b4 * b5 + b7 * b8) + (y - o2) * (b2 * b2 + b5 * b5 + b8 * b8)
+            + (z - o3) * (b2 * b3 + b5 * b6 + b8 * b9)) by ring.
+    rewrite C12, C22, C23. ring.
+  - replace (o3 + ((b1 * (x - o1) + b2 * (y - o2) + b3 * (z - o3)) * b3 +
+                   ((b4 * (x - o1) + b5 * (y - o2) + b6 * (z - o3)) * b6 +
+                    (b7 * (x - o1) + b8 * (y - o2) + b9 * (z - o3)) * b9)))
+      with (o3 + (x - o1) * (b3 * b1 + b6 * b4 + b9 * b7) + (y - o2) * (b2 * b3 + b5 * b6 + b8 * b9)
+            + (z - o3) * (b3 * b3 + b6 * b6 + b9 * b9)) by ring.
+    rewrite C31, C23, C33. ring.
+Qed.
+
+(* for every point p of the main system: the moved part's surfaces at p
+   = the unmoved part's surfaces at the back-transformed point to_aux O B p *)
+Theorem interface_law_inv : forall (o : R3) (b : M3 R) (s : msurf R),
+  rows_orthonormal b -> iface_wf b s ->
+  exists coll0 coll,
+    convert RS s = Ok coll0 /\ tr_convert RS (tr12 o b) s = Ok coll /\
+    forall p, sense_neg_b coll p = sense_neg_b coll0 (to_aux o b p) /\
+              sense_pos_b coll p = sense_pos_b coll0 (to_aux o b p).
+Proof.
+  intros o b s Hb Hwf. destruct (interface_law o b s Hb Hwf) as (coll0 & coll & E0 & E1 & L).
+  exists coll0, coll. split; [exact E0|]. split; [exact E1|].
+  intros p. destruct (L (to_aux o b p)) as (Ln & Lp & _ & _). rewrite to_main_to_aux in Ln, Lp by assumption.
+  split; apply bool_iff_eq; rewrite ?sense_neg_b_spec, ?sense_pos_b_spec; assumption.
 Qed.
